@@ -5,7 +5,7 @@
 //! restores the snapshot taken before the transaction.
 
 use crate::bech;
-use crate::kv::{Kv, NoQuerier, SimApi};
+use crate::kv::{ChainQuerier, Kv, SimApi};
 use crate::wire::{self, Val};
 use cosmwasm_std::{
     Addr, BankMsg, Binary, BlockInfo, Coin, ContractInfo, CosmosMsg, DepsMut, Empty, Env, MessageInfo,
@@ -329,7 +329,7 @@ impl World {
         let env = self.env();
         let info = MessageInfo { sender: Addr::unchecked(sender), funds: vec![] };
         let api = SimApi { prefix: PROTO_PREFIX };
-        let q = NoQuerier;
+        let q = ChainQuerier { bank: &self.bank, contract: contract_addr() };
         let r = {
             let deps = DepsMut { storage: &mut self.kv, api: &api, querier: QuerierWrapper::new(&q) };
             guarded(|| staking::contract::instantiate(deps, env, info, msg))
@@ -386,7 +386,7 @@ impl World {
             funds: sorted.into_iter().map(|(d, a)| Coin::new(*a, d.clone())).collect(),
         };
         let api = SimApi { prefix: PROTO_PREFIX };
-        let q = NoQuerier;
+        let q = ChainQuerier { bank: &self.bank, contract: contract_addr() };
         let r = {
             let deps = DepsMut { storage: &mut self.kv, api: &api, querier: QuerierWrapper::new(&q) };
             guarded(|| staking::contract::execute(deps, env, info, msg))
@@ -458,7 +458,7 @@ impl World {
     fn call_reply(&mut self, rep: Reply, out: &mut TxOut, depth: u32) -> Result<(), String> {
         let env = self.env();
         let api = SimApi { prefix: PROTO_PREFIX };
-        let q = NoQuerier;
+        let q = ChainQuerier { bank: &self.bank, contract: contract_addr() };
         let id = rep.id;
         let r = {
             let deps = DepsMut { storage: &mut self.kv, api: &api, querier: QuerierWrapper::new(&q) };
@@ -717,7 +717,7 @@ impl World {
         let mut out = TxOut::default();
         let env = self.env();
         let api = SimApi { prefix: PROTO_PREFIX };
-        let q = NoQuerier;
+        let q = ChainQuerier { bank: &self.bank, contract: contract_addr() };
         let r = {
             let deps = DepsMut { storage: &mut self.kv, api: &api, querier: QuerierWrapper::new(&q) };
             guarded(|| staking::contract::sudo(deps, env, msg))
@@ -829,7 +829,7 @@ impl World {
         let mut out = TxOut::default();
         let env = self.env();
         let api = SimApi { prefix: PROTO_PREFIX };
-        let q = NoQuerier;
+        let q = ChainQuerier { bank: &self.bank, contract: contract_addr() };
         let r = {
             let deps = DepsMut { storage: &mut self.kv, api: &api, querier: QuerierWrapper::new(&q) };
             guarded(|| staking::contract::migrate(deps, env, msg))
@@ -849,7 +849,7 @@ impl World {
     pub fn query_raw(&self, msg: QueryMsg) -> Result<Vec<u8>, String> {
         let env = self.env();
         let api = SimApi { prefix: PROTO_PREFIX };
-        let q = NoQuerier;
+        let q = ChainQuerier { bank: &self.bank, contract: contract_addr() };
         let deps = cosmwasm_std::Deps { storage: &self.kv, api: &api, querier: QuerierWrapper::new(&q) };
         let r = guarded(|| staking::contract::query(deps, env, msg));
         match r {
@@ -862,7 +862,7 @@ impl World {
     pub fn query<T: DeserializeOwned>(&self, msg: QueryMsg) -> Result<T, String> {
         let env = self.env();
         let api = SimApi { prefix: PROTO_PREFIX };
-        let q = NoQuerier;
+        let q = ChainQuerier { bank: &self.bank, contract: contract_addr() };
         let deps = cosmwasm_std::Deps { storage: &self.kv, api: &api, querier: QuerierWrapper::new(&q) };
         let r = guarded(|| staking::contract::query(deps, env, msg));
         match r {
@@ -874,7 +874,7 @@ impl World {
 
     pub fn admin(&self) -> Option<String> {
         let api = SimApi { prefix: PROTO_PREFIX };
-        let q = NoQuerier;
+        let q = ChainQuerier { bank: &self.bank, contract: contract_addr() };
         let deps: cosmwasm_std::Deps<Empty> = cosmwasm_std::Deps { storage: &self.kv, api: &api, querier: QuerierWrapper::new(&q) };
         staking::state::ADMIN.get(deps).ok().flatten().map(|a| a.to_string())
     }
